@@ -244,12 +244,11 @@ def gen_split_cases(rnd, tier, pre):
 HIST_VALUES = [b"alice", b"bob", b"1", b"42", b"user-7", b"zz9"]
 
 
-def gen_hist(rnd, d6=False):
+def gen_hist(rnd, restart_set=False):
     ids = list(range(10))
     rnd.shuffle(ids)
     init = ids.pop()
     ops = []
-    targets = False
     n = rnd.randint(4, 14)
 
     def request():
@@ -265,15 +264,15 @@ def gen_hist(rnd, d6=False):
         return {"op": "set", "pct": str(rnd.choice([0, 100, 100, 50, 20, 80, rnd.randint(0, 100), -1, 101])),
                 "allow": [v.hex() for v in rnd.sample(HIST_VALUES, rnd.randint(0, 2))]}
 
-    if d6:
-        # restart while no rollout targets exist, then a split and opted-in requests
+    if restart_set:
+        # restart while no rollout targets exist, then `rollout set` (must be rejected) and opted-in requests
         pre = [request() for _ in range(rnd.randint(0, 2))]
         if rnd.random() < 0.5:
             pre.append(setop())
         ops = pre + [{"op": "restart"}, setop(), request(), request(),
                      {"op": "request", "lines": [(COOKIE + b"=alice").hex()]}]
         ops[len(pre) + 1]["pct"] = "100"
-        return {"kind": "hist", "stream": "hist-d6", "init": init, "ops": ops}
+        return {"kind": "hist", "stream": "hist-restart-set", "init": init, "ops": ops}
     for _ in range(n):
         k = rnd.random()
         if k < 0.38:
@@ -282,15 +281,12 @@ def gen_hist(rnd, d6=False):
             ops.append({"op": "deploy", "id": ids.pop()})
         elif k < 0.65 and ids:
             ops.append({"op": "rollout_deploy", "id": ids.pop()})
-            targets = True
         elif k < 0.82:
             ops.append(setop())
         elif k < 0.92:
             ops.append({"op": "stop"})
-        elif targets:
-            ops.append({"op": "restart"})        # restart with rollout targets: nothing changes
         else:
-            ops.append(request())
+            ops.append({"op": "restart"})
         if ops[-1]["op"] != "request" and rnd.random() < 0.7:
             ops.append(request())
     return {"kind": "hist", "stream": "hist", "init": init, "ops": ops}
@@ -300,15 +296,15 @@ def gen_cases(seed, tier):
     rnd = random.Random(seed)
     pre = Preimages(rnd, prefix=bytes(rnd.choice(VALUE_ALPHA) for _ in range(rnd.randint(0, 3))))
     cases = gen_split_cases(rnd, tier, pre)
-    # the witness of props/C10.v c10_refuted_restart_D6
-    cases.append({"kind": "hist", "stream": "hist-d6", "init": 0,
+    # props/C10.v c10_example_restart_then_set (finding D6 of the pinned tree, repaired by d6a34a4)
+    cases.append({"kind": "hist", "stream": "hist-restart-set", "init": 0,
                   "ops": [{"op": "restart"}, {"op": "set", "pct": "100", "allow": []},
                           {"op": "request", "lines": [(COOKIE + b"=x").hex()]}]})
-    nh, nd6 = (60, 3) if tier == "quick" else (1500, 20)
+    nh, nrs = (80, 5) if tier == "quick" else (2000, 40)
     for _ in range(nh):
         cases.append(gen_hist(rnd))
-    for _ in range(nd6):
-        cases.append(gen_hist(rnd, d6=True))
+    for _ in range(nrs):
+        cases.append(gen_hist(rnd, restart_set=True))
     return cases
 
 
@@ -359,25 +355,18 @@ def case_term(c, o):
     return "CaseHist %d %s %s" % (c["init"], list_lit(cmds), list_lit(xs))
 
 
-def parse_pair(txt):
-    """`(failures, d6 indices)` as printed by Coq."""
-    t = txt.strip()
-    m = re.fullmatch(r"\((\[.*\]|nil), (\[[^\[\]]*\]|nil)\)", t, re.S)
-    if not m:
-        raise RuntimeError("unexpected result term: " + t[:300])
-    fails = parse_failures(m.group(1))
-    d6txt = m.group(2).strip()
-    d6 = []
-    if d6txt not in ("[]", "nil"):
-        for it in d6txt[1:-1].split(";"):
-            mm = re.fullmatch(r"(\d+)(?:%nat)?", it.strip())
-            if not mm:
-                raise RuntimeError("unexpected index: " + it)
-            d6.append(int(mm.group(1)))
-    return fails, d6
-
-
-D6_ID = "D6-restart-empty-rollout-balancer"
+def assumptions_by_theorem(prop_file, out):
+    """Pair the `Print Assumptions` commands of props/<file> with the blocks coqc printed."""
+    src = open(os.path.join(COQ, "props", prop_file)).read()
+    names = re.findall(r"^Print Assumptions ([A-Za-z0-9_']+)\.", src, re.M)
+    blocks = re.findall(r"^(Closed under the global context|Axioms:\n(?:(?!^Closed under|^Axioms:).*\n?)*)", out, re.M)
+    res = {}
+    for n, b in zip(names, blocks):
+        if b.startswith("Closed"):
+            res[n] = "closed under the global context"
+        else:
+            res[n] = sorted(set(re.findall(r"^([A-Za-z0-9_.']+)\s*(?:$|:)", b.split("\n", 1)[1], re.M)))
+    return res if len(names) == len(blocks) else {"unparsed": out[-2000:]}
 
 
 def run(tier, seed):
@@ -394,7 +383,8 @@ def run(tier, seed):
         obs = read_jsonl(work.path("obs.jsonl")) if harness_ok else []
         if harness_ok and len(obs) != len(cases):
             harness_ok = False
-        failing, d6_idx = [], set()
+        res.coverage["assumptions_by_theorem"] = assumptions_by_theorem("C10.v", pa)
+        failing = []
         if harness_ok and ok:
             jobs, cur, size, start = [], [], 0, 0
             for j in range(len(cases)):
@@ -411,17 +401,14 @@ def run(tier, seed):
             def ev(job):
                 s, terms = job
                 body = ("Definition cases : list c10_case := %s.\n"
-                        "Definition R := Eval vm_compute in (failures cases, d6_cases cases).\n" % ("[\n" + ";\n".join(terms) + "]"))
+                        "Definition R := Eval vm_compute in failures cases.\n" % ("[\n" + ";\n".join(terms) + "]"))
                 txt = coq_eval(work, "Cases_%d" % s,
                                "From KP Require Import model.Base model.Rollout corr.C10corr.\nLocal Open Scope N_scope.", body, "R")
                 return s, txt
             with ThreadPoolExecutor(max_workers=16) as ex:
                 for s, txt in ex.map(ev, jobs):
-                    fails, d6 = parse_pair(txt)
-                    for (j, a, m) in fails:
+                    for (j, a, m) in parse_failures(txt):
                         failing.append((s + j, a, m))
-                    for j in d6:
-                        d6_idx.add(s + j)
 
         # ---- coverage: what was generated and where the decisions landed
         streams, kinds, ops = {}, {}, {}
@@ -479,8 +466,7 @@ def run(tier, seed):
                 {"reqs": cases[i]["reqs"][:3]} if cases[i]["kind"] == "split" else {}) for i in (0, 14, len(cases) - 5)],
             "correspondence": {"cases": len(cases), "decisions": n_dec + n_req_hist,
                                "disagreements": len([f for f in failing if not f[1]]),
-                               "monitor_failures": len([f for f in failing if not f[2]]),
-                               "d6_pattern_cases": len(d6_idx)},
+                               "monitor_failures": len([f for f in failing if not f[2]])},
         })
         res.assumptions = [
             "model/Rollout.v is hand-written; tied to rollout_controller.go, service.go, net/http cookie parsing and hash/fnv only by this correspondence run",
@@ -491,20 +477,7 @@ def run(tier, seed):
             "FNV-1a's uniformity over real cookie values is not part of the theorem (c10_share is about hash values)",
         ]
         mon_fail = [f for f in failing if not f[2]]
-        known_listed = [e for e in known_findings("C10") if e.get("id") == D6_ID]
-        new_fail = []
-        for f in mon_fail:
-            j = f[0]
-            if j in d6_idx and f[1]:
-                payload = {"property": "C10", "what": "monitor false on an implementation trace (pattern corr.C10corr.d6_pattern: "
-                           "restart without rollout targets, then `rollout set` accepted)", "case": cases[j], "observed": obs[j],
-                           "seed": seed, "tier": tier}
-                if known_listed:
-                    with open(res.replay_path("known-D6"), "w") as fh:
-                        json.dump(payload, fh, indent=1, sort_keys=True)
-                    res.known_finding("%s %s replay=%s" % (D6_ID, known_listed[0].get("what", ""), res.replay_path("known-D6")))
-                    continue
-            new_fail.append(f)
+        new_fail = mon_fail
         disagree = [f for f in failing if f[2] and not f[1]]
         if new_fail:
             j = new_fail[0][0]
